@@ -366,6 +366,17 @@ class CallMixin:
 
     def havoc_loc(self, m, pre, st, sub):
         m = m.strip()
+        if m == '*':
+            # arbitrary effect on every heap field known so far (weak contract of an abstracted callee)
+            for fid in list(st.heap.keys()) + [f for f in self.ctx.heap0 if f not in st.heap]:
+                if fid.startswith('$'):
+                    continue
+                old = st.heap.get(fid)
+                if old is None:
+                    old = self.ctx.heap0[fid]
+                st.heap[fid] = fresh('Hany_' + fid, old.sort())
+                self.ctx.note_heap_array(st.heap[fid], old.sort().range())
+            return
         if m.endswith('[*]'):
             # whole heap array  'Class.attr[*]'
             cls, attr = m[:-3].split('.')
